@@ -205,3 +205,22 @@ CLAIMS["C19"] = dict(
          "entry was popped before it returned reports `false` although it found the list empty (benign, see DESIGN.md). SC memory.",
     design_ref="DESIGN.md §6 C19",
 )
+
+CLAIMS["C08"] = dict(
+    text="Park.tla (the kernel side arming the timer before it publishes the coroutine, the timer thread's take, the "
+         "deadline re-check of the repaired tree), AtomicDur.tla (every duration: a timer is armed, never earlier than asked; "
+         "boundary values by TLC, unbounded by Apalache) and Timer.tla (interval lists + heap of list heads + removals: no "
+         "early fire, fired once, heap covers the lists, prompt when time is friendly) are checked exhaustively; the pinned "
+         "tree's counter-examples (F5: sub-millisecond = no time-out, fractional = early; F6: time-out lost when the timer "
+         "fires before the coroutine is published) are shown with the switches off. The real runtime runs on a virtual clock "
+         "(time moves only by Tick = jump to the earliest deadline; the real timer thread fires): the park protocol at "
+         "atomic-step granularity with nobody but the timer to end the wait, for 10ms, 500us, 1.5ms and zero, Blocker, handle "
+         "park and sleep, coroutine and thread; and the `timers` scenario: up to five actors with sleep, Blocker::park, "
+         "park_timeout, Semphore / SyncFlag / Condvar wait_timeout, mpsc / mpmc recv_timeout at once, equal and different "
+         "intervals, odd durations (1ns, 999999ns, 1000001ns, 0), cancelled sleepers. The timed units of C06, C10, C11, C16 are "
+         "replayed from their specifications. Oracle: never before d of virtual time, not later than the 1ms granularity "
+         "after it, no wait left asleep once virtual time has passed every timer, no event reported that nobody supplied.",
+    note="Virtual time abstracts the wall clock: real scheduling latency of the timer thread is not measured. Thread-context waits "
+         "are timed with the real clock (never early only). SC memory; bounded instances.",
+    design_ref="DESIGN.md §6 C08",
+)
